@@ -93,7 +93,14 @@ def _run(job):
                 return {"job": job, "error": "no instance of %s in the monomorphic program" % job["target"], "wall": time.time() - t0}
             ctxs = []
             for m in insts:
-                ctx = run.analyze_fn(f, m, job["model"], pre=_PRE.get(job.get("pre")), keep_paths=job.get("post") in ("cutoff",))
+                ctx0 = None
+                if job.get("post") == "cutoff":
+                    from mlxsa.absint.engine import Ctx
+                    from mlxsa.absint.domain import G
+                    G.reset()
+                    ctx0 = Ctx(f, job["model"])
+                    ctx0.cmp_log = []
+                ctx = run.analyze_fn(f, m, job["model"], pre=_PRE.get(job.get("pre")), keep_paths=job.get("post") in ("cutoff",), ctx=ctx0)
                 # post-conditions read atoms of the exit states: evaluate them before the next analysis resets the atom tables
                 if job.get("post") == "truncation":
                     run.truncation_postconditions(ctx, m)
@@ -104,6 +111,8 @@ def _run(job):
                 if job.get("post") == "cutoff":
                     run.cutoff_postconditions(ctx, m, f)
                     run.protocol_postconditions(ctx, m, f)
+                    if m["dpath"].endswith("lemire::compute_float"):
+                        run.tie_window_postconditions(ctx, m, f)
                 if job.get("post") in ("sat+", "sat-"):
                     run.saturation_postconditions(ctx, m, job["post"] == "sat+")
                 ctxs.append((m["name"], ctx))
